@@ -177,7 +177,10 @@ static void DivOp(TempResult* pErg, TempResult* pLVal, TempResult* pRVal) {
         if (pRVal->Contents.Int == 0) {
             WrError(ErrNum_DivByZero);
         } else {
-            as_tempres_set_int(pErg, pLVal->Contents.Int / pRVal->Contents.Int);
+            as_tempres_set_int(
+                    pErg, (pRVal->Contents.Int == -1)
+                                  ? (LargeInt)(0 - (LargeWord)pLVal->Contents.Int)
+                                  : pLVal->Contents.Int / pRVal->Contents.Int);
         }
         break;
     case TempFloat:
@@ -196,7 +199,10 @@ static void ModOp(TempResult* pErg, TempResult* pLVal, TempResult* pRVal) {
     if (pRVal->Contents.Int == 0) {
         WrError(ErrNum_DivByZero);
     } else {
-        as_tempres_set_int(pErg, pLVal->Contents.Int % pRVal->Contents.Int);
+        as_tempres_set_int(
+                pErg, (pRVal->Contents.Int == -1)
+                              ? 0
+                              : pLVal->Contents.Int % pRVal->Contents.Int);
     }
     PromoteLRValFlags();
 }
